@@ -13,14 +13,14 @@ TIERS = {'quick': 5000, 'thorough': 200000}
 RULE = ('two families, each through the real TcpTransport (on simulated socket+select modules) and the real TcpTransportAsync (real asyncio streams and '
         'async_timeout on a simulated asyncio.Transport): (a) transport scripts against a raw byte peer that writes seeded chunks with pauses: reads of '
         'seeded sizes and timeouts (None with data eventually arriving, small), writes against small send buffers and a slow reader, EOF, a peer reset (RST) followed by close() and connect(), close twice, '
-        'reconnect; oracles: each read returns <= n bytes, the concatenation of reads equals the peer\'s bytes in order, an empty wire raises '
+        'reconnect, and (sync) a second TcpTransport object of the same process with its own peer used between those calls; oracles: each read returns <= n bytes, the concatenation of reads equals the peer\'s bytes in order, an empty wire raises '
         'TcpTimeoutException not before the timeout and later data still arrives, bytes reported as written reach the peer in order; (b) whole device '
         'sessions (connect, shell, list, stat, pull, push) over TCP compared with ground truth and with the same session over the in-memory transport. '
         'non-trivial = a read returned fewer bytes than requested and a timeout occurred in the run (a), or the session moved >= 1 fragmented read (b); '
         'distinct = event-log digests')
 ASSUMPTIONS = ['the deciding runs use a model of the kernel endpoint (real sockets cannot be replayed); the model is compared with the loopback stack by ./check selftest-sockmodel, outside the registered checks',
                'real: TcpTransport, TcpTransportAsync, asyncio.StreamReader/StreamWriter/StreamReaderProtocol, async_timeout']
-EXPECT_PROBES = {'all': ['c18_script', 'c18_session', 'c18_timeout_seen', 'c18_short_read', 'c18_reconnect', 'c18_double_close', 'short_writes', 'backpressure_pause', 'c18_peer_reset', 'peer_eof', 'c18_poll_with_data']}
+EXPECT_PROBES = {'all': ['c18_script', 'c18_session', 'c18_timeout_seen', 'c18_short_read', 'c18_reconnect', 'c18_double_close', 'short_writes', 'backpressure_pause', 'c18_peer_reset', 'peer_eof', 'c18_poll_with_data', 'c18_sibling_transport']}
 REAL_VS_STUB = {'real': ['adb_shell.transport.tcp_transport.TcpTransport', 'adb_shell.transport.tcp_transport_async.TcpTransportAsync', 'asyncio streams + async_timeout',
                          'adb_shell.adb_device[_async] (session family)'],
                 'stub': ['kernel socket + select (simadb.simsock)', 'asyncio.Transport + event loop selector (simadb.simsock / aioloop)', 'peer: raw byte script or adbd model', 'clock']}
@@ -68,6 +68,36 @@ def gen_script(g):
     return chunks, ops
 
 
+def add_sibling(g, ops):
+    """A second TcpTransport object of the same process, connected to another peer, is used between the calls of the first one. Its peer has
+    data waiting most of the time (also while the first transport waits for its own peer). Neither transport may notice the other."""
+    size = g.pick([1, 24, 300, 5000])
+    inbox = {'seed': g.int(0, 999), 'size': size, 'alpha': 'bin'}
+    first = next(i for i, o in enumerate(ops) if o['op'] == 't_read' and not o.get('poll_with_data'))
+    last = max(i for i, o in enumerate(ops) if o['op'] == 't_close')
+    ops.insert(first, {'op': 't_sib_connect', 'timeout': g.pick([None, 1.0, 5.0]), 'inbox': inbox})
+    left = size
+    extra = []
+    for _ in range(g.int(0, 4)):
+        if g.chance(0.5) and left > 1:
+            n = g.int(1, left - 1)
+            extra.append({'op': 't_sib_read', 'n': n, 'timeout': g.pick([0, 0.5, None])})
+            left -= n
+        else:
+            extra.append({'op': 't_sib_write', 'content': {'seed': g.int(0, 999), 'size': g.pick([1, 24, 1000]), 'alpha': 'bin'}, 'timeout': g.pick([1.0, None])})
+    tail = [{'op': 't_sib_read', 'n': 65536, 'timeout': g.pick([0, 0.5])}, {'op': 't_sib_close'}]
+    if g.chance(0.3):
+        tail.append({'op': 't_sib_close'})
+    early = g.chance(0.3)       # the sibling is closed while the first transport is still in use
+    for e in extra:
+        ops.insert(g.int(first + 1, last + 1), e)
+        last += 1
+    lo = max(i for i, o in enumerate(ops) if o['op'].startswith('t_sib_')) + 1
+    at = g.int(lo, len(ops)) if early else len(ops)
+    ops[at:at] = tail
+    return inbox
+
+
 def gen_reset_script(g):
     """The peer resets the connection (RST) during a read or a write; then close() and connect() must give a working transport again."""
     chunks = [[g.pick([0.0, 0.001]), g.bytes(g.pick([24, 100, 1000])).hex()] for _ in range(g.int(2, 4))]
@@ -100,6 +130,8 @@ def generate(seed, tier):
     if g.chance(0.45):
         chunks, ops = gen_script(g)
         dev = {'raw_peer': True, 'script': chunks}
+        if api == 'sync' and g.chance(0.3):
+            add_sibling(g, ops)
         if g.chance(0.3):
             dev['eof_after'] = True      # the peer closes its side after its last chunk: reads see end-of-stream, they must still return
         scn = {'api': api, 'transport': 'tcp', 'tcp': tcp, 'device': dev, 'actors': [ops],
@@ -243,6 +275,30 @@ def eval_script(case, tapes, out):
             probs.append(O.P('write-lost', 'the peer received %d bytes that are not a prefix of the %d bytes bulk_write reported as written' % (len(rec), len(written))))
         elif len(rec) < len(written) and flushed:
             probs.append(O.P('write-lost', 'bulk_write reported %d bytes written in total; the peer received only %d by the time the connection was closed and flushed' % (len(written), len(rec))))
+    sib = [r for r in recs if r['op'].startswith('t_sib_')]
+    if sib and not run.abort:
+        pr['c18_sibling_transport'] = 1
+        inbox = expand(sib[0]['spec']['inbox'])
+        got_s = bytearray()
+        put_s = bytearray()
+        closed_s = False
+        for r in sib:
+            if r.get('exc') in ('SimAbort', 'SimHang'):
+                break
+            if not r['ok']:
+                probs.append(O.P('wrong-exception', 'the second TcpTransport object (own peer, data waiting, room to write): %s raised %s: %s' % (r['op'], r['exc'], r.get('msg'))))
+                break
+            if r['op'] == 't_sib_close':
+                closed_s = True
+            if r['op'] == 't_sib_read' and not closed_s:
+                got_s += r['value']
+            if r['op'] == 't_sib_write' and not closed_s:
+                put_s += expand(r['spec']['content'])[:r['value'] if isinstance(r['value'], int) else None]
+        if bytes(got_s) != inbox[:len(got_s)]:
+            probs.append(O.P('bytes-differ', 'the second TcpTransport object read bytes that its own peer did not write'))
+        w = getattr(run, 'tcp_world', None)
+        if w is not None and w.siblings and bytes(w.siblings[0].sent) != bytes(put_s):
+            probs.append(O.P('write-lost', 'the second TcpTransport object: %d bytes reported as written, its peer received %d' % (len(put_s), len(w.siblings[0].sent))))
     if case.get('reset') and not run.abort and len(sessions) >= 2:
         # after close() + connect() the transport must be connected to the (new) peer: its bytes arrive again
         tried = sum(1 for r in recs[last_connect_idx + 1:] if r['spec']['op'] == 't_read' and not r.get('skipped'))
